@@ -348,13 +348,10 @@ fn e2_leg(ctx: &mut Ctx, points: &[Point]) -> bool {
                             continue;
                         }
                         Some(d) => crate::ev::inconclusive(&format!("lattice point failed with an unrelated error: {} -- {here}", d.first().map(|x| x.rendered.clone()).unwrap_or_default())),
-                        None => {
-                            ctx.violation(
-                                &format!("a unimock derivation should be active here (and fail without the feature) but the program compiles -- {here}"),
-                                &json!({"engine": "E2", "kind": "lattice", "feature": feature, "cfg_test": cfg_test, "src": e2_case(p, &id), "expect": "rejected"}),
-                            );
-                            return false;
-                        }
+                        // (whether the derivation was emitted is decided by the E1 leg on the tokens; here the missing
+                        // `::entrait::__unimock` is only the channel through which an active one shows without the feature -
+                        // a tree on which such a program compiles needs another channel, not a verdict)
+                        None => crate::ev::inconclusive(&format!("an active unimock derivation compiles without the `unimock` feature: the observation channel of this leg no longer applies -- {here}")),
                     }
                 }
                 if let Some(d) = failed {
